@@ -15,6 +15,9 @@ CLAIMED = {
  "C03": ("deterministic simulation: seeded partition of the byte stream into reads (every 2-way split enumerated per sampled stream), differential oracle against one-read delivery through the same real code",
          "seeded exploration of (stream, partition) pairs through the real XmppSocket; a clean batch is evidence, not proof",
          "SimSslSocket replaces the kernel socket; the one-read delivery through the same code is the reference"),
+ "C07": ("deterministic simulation with fault injection: seeded histories of requests (raw and 34 manager APIs), scheduler-chosen replies (any sender, any order, duplicated, never), deferred e2ee jobs, link losses and (non-)resumptions; exactly-once counters, sender attribution, bounded completion",
+         "seeded search over histories and schedules with a real client; every reply and every asynchronous completion is a scheduler decision; a clean batch is evidence, not proof",
+         "transport, clock, server and encryption extension are simulated; 'don't care' sender variants are not judged"),
  "C09": ("deterministic simulation with fault injection: seeded histories of sends, acks (honest/adversarial), link losses and resumptions against an executable XEP-0198 reference model fed from the wire",
          "seeded search over histories and fault sequences with a real client and an independent scripted server; refinement against a small reference model after every step",
          "transport, TLS, clock and server are simulated; server-to-client delivery is element-wise"),
